@@ -1061,6 +1061,12 @@ def preds_of(v, positive=True, depth=0):
             if o[1] == "not":
                 for p in preds_of(o[2], not positive, depth + 1):
                     yield p
+            elif o[1] == "ne":
+                yield ("eq", o[2:], not positive)
+            elif o[1] == "is_none":
+                yield ("is_some", o[2:], not positive)
+            elif o[1] == "is_err":
+                yield ("is_ok", o[2:], not positive)
             else:
                 yield (o[1], o[2:], positive)
         elif isinstance(o, str):
